@@ -3,6 +3,7 @@ from __future__ import annotations
 
 import asyncio
 import logging
+import os
 import socket as _rs
 import warnings
 from typing import Any, Dict, List, Optional
@@ -76,6 +77,9 @@ class UdpRun:
         self.stop_returned_seq: List[int] = []
 
 
+LIB_SRC = os.path.abspath(os.path.join(os.environ.get("VERIF_REPO", "/repo"), "src")) + os.sep
+
+
 class _LogTap(logging.Handler):
     def __init__(self, run: UdpRun):
         super().__init__(level=logging.WARNING)
@@ -83,6 +87,9 @@ class _LogTap(logging.Handler):
 
     def emit(self, record):
         sim = self.run.sim
+        # whatever the library logs, on its own loggers or (by mistake) on the root logger
+        if not (record.name.startswith("aioswitcher") or os.path.abspath(record.pathname).startswith(LIB_SRC)):
+            return
         self.run.logrecs.append({"seq": sim.seq, "level": record.levelname, "msg": record.getMessage()[:120],
                                  "taken": len(sim.net.taken), "arrived": sim.net_arrival_count()})
         sim.rec("log", record.levelname, record.getMessage()[:60])
@@ -93,7 +100,7 @@ def run(scn: Dict[str, Any]) -> UdpRun:
     cfg = scn["config"]
     out = UdpRun()
     raise_on = set(cfg.get("cb_raise", []))
-    with SimContext(cfg.get("sched", 0), cfg.get("epoch0", 1_600_000_000), cfg.get("tz")) as ctx:
+    with SimContext(cfg.get("sched", 0), cfg.get("epoch0", 1_600_000_000), cfg.get("tz"), tz_form=cfg.get("tz_form")) as ctx:
         sim = ctx.sim
         out.sim = sim
         sim.net.rxq_limit = cfg.get("rxq_limit", 64)
@@ -111,6 +118,25 @@ def run(scn: Dict[str, Any]) -> UdpRun:
                 if n in raise_on:
                     sim.fire("cb_raise")
                     raise CallbackError("callback %d failed" % n)
+            # the user's callback need not be a plain function
+            kind = cfg.get("cb_kind", "function")
+            if kind == "partial":
+                import functools
+                return functools.partial(lambda _extra, dev: on_device(dev), "extra")
+            if kind == "method":
+                class User:
+                    def seen(self, dev):
+                        return on_device(dev)
+                return User().seen
+            if kind == "callable":
+                class Seen:
+                    __slots__ = ()
+
+                    def __call__(self, dev):
+                        return on_device(dev)
+                return Seen()
+            if kind == "lambda":
+                return lambda dev: on_device(dev)
             return on_device
 
         # one bridge by default; several bridge objects in one process when the scenario says so
@@ -131,7 +157,7 @@ def run(scn: Dict[str, Any]) -> UdpRun:
         foreign: Dict[int, FakeSocket] = {}
         tap = _LogTap(out)
         lg = logging.getLogger("aioswitcher")
-        lg.addHandler(tap)
+        logging.getLogger().addHandler(tap)        # (records of the library's own loggers propagate to it)
         old_level = lg.level
         # the application's logging configuration is part of the environment: WARNING (library default), or the
         # user has turned on INFO / DEBUG for the library
@@ -142,7 +168,9 @@ def run(scn: Dict[str, Any]) -> UdpRun:
                 return      # emitted by the garbage collector for objects of earlier runs: timing is not ours
             out.warnings.append({"seq": sim.seq, "category": category.__name__, "msg": str(message)[:120],
                                  "taken": len(sim.net.taken), "arrived": sim.net_arrival_count(),
-                                 "deprecation": issubclass(category, (DeprecationWarning, PendingDeprecationWarning))})
+                                 # (a deprecation warning raised from the library's own source is the library's doing)
+                                 "deprecation": issubclass(category, (DeprecationWarning, PendingDeprecationWarning))
+                                 and not os.path.abspath(str(filename)).startswith(LIB_SRC)})
             sim.rec("warning", category.__name__, str(message)[:60])
 
         def held_ports(bidx=0):
@@ -210,7 +238,7 @@ def run(scn: Dict[str, Any]) -> UdpRun:
                     sim.fire("udp_delay")
                 return
             if kind == "sockerr":
-                sim.net.udp_error(st["port"], st.get("delay", 0.0))
+                sim.net.udp_error(st["port"], st.get("delay", 0.0), st.get("err", "refused"))
                 return
             if kind == "occupy":
                 p = st["port"]
@@ -335,7 +363,7 @@ def run(scn: Dict[str, Any]) -> UdpRun:
                 out.cap = str(e)
             finally:
                 warnings.showwarning = old_show
-                lg.removeHandler(tap)
+                logging.getLogger().removeHandler(tap)
                 lg.setLevel(old_level)
         out.arrivals = {p: list(v) for p, v in sim.net.arrivals.items()}
         out.arrival_order = list(sim.net.arrival_order)
